@@ -68,13 +68,18 @@ def add_vec4_shuffles(u, sh=None):
     P, N = sh.path, sh.name
     gh = 'impl<T>%s<T>' % N
     f = sh.fields
+    lane = 'lane4'
+    if N != 'Vec4':
+        lane = 'lane4_%s' % N.lower()
+        u.add(P, 'pub open spec fn %s<T>(v: %s<T>, k: usize) -> T {\n    if k == 0 { v.%s } else if k == 1 { v.%s } else if k == 2 { v.%s } else { v.%s }\n}'
+              % (lane, N, f[0], f[1], f[2], f[3]))
     u.take(P, gh, 'shuffle_lo_hi', C(
         requires=['M::obeys_into_spec()'],
-        ensures=['res.%s == lane4(%s, sm_idx(mask.into_spec(), %d))' % (f[k], 'lo' if k < 2 else 'hi', k) for k in range(4)]),
+        ensures=['res.%s == %s(%s, sm_idx(mask.into_spec(), %d))' % (f[k], lane, 'lo' if k < 2 else 'hi', k) for k in range(4)]),
         mode='G')
     u.take(P, gh, 'shuffled', C(
         requires=['M::obeys_into_spec()'],
-        ensures=['res.%s == lane4(self, sm_idx(mask.into_spec(), %d))' % (f[k], k) for k in range(4)]), mode='G')
+        ensures=['res.%s == %s(self, sm_idx(mask.into_spec(), %d))' % (f[k], lane, k) for k in range(4)]), mode='G')
     fixed = {
         'shuffle_lo_hi_0101': ('a', 'b', [('a', 0), ('a', 1), ('b', 0), ('b', 1)]),
         'shuffle_hi_lo_2323': ('a', 'b', [('b', 2), ('b', 3), ('a', 2), ('a', 3)]),
